@@ -1016,6 +1016,15 @@ class Interp:
             return self.contains(Tup(cont.keys), x, st, fr, n)
         if isinstance(cont, (Sym, UnkIter)):
             return self.fork_bool(("in", repr(x), repr(cont)), st)
+        if isinstance(cont, ClsV):
+            simple = cont.q.split(".")[-1]
+            is_enum = simple in self.prog.lib_enums or (cont.repo and self.prog.classes[cont.q].is_enum)
+            if is_enum:
+                if isinstance(x, E):
+                    return [(x.cls == simple, st)]
+                if x is None or isinstance(x, (bool, str, bytes)):
+                    return [(False, st)]
+                return self.fork_bool(("in", repr(x), simple), st)
         raise AnalysisError(f"membership test on {cont!r} at {self.site(fr, n)}")
 
     # ------------------------------------------------------------------ expressions
